@@ -596,6 +596,32 @@ func runC07(w *vx.W) {
 			}
 		}
 	}
+	// (10) consecutive messages of one slice that differ in exactly one field, for every field of the messages with more
+	// than 60 fields (session, lap, segment_lap ...): bookkeeping over field sets must not be limited to a machine word
+	for _, e := range p.all {
+		m := uint16(e.Mesg)
+		if len(p.byMesg[m]) <= 60 || e.Kind != kindNative || e.Array || e.Base == fitmodel.String || fitmodel.BaseSize(e.Base) > 4 {
+			continue
+		}
+		ft, ok := hostType(m)
+		if !ok || !slotIsSlice(ft, m) {
+			continue
+		}
+		base := p.byMesg[m][0]
+		for _, b0 := range p.byMesg[m] {
+			if b0.Kind == kindNative && !b0.Array && b0.Base != fitmodel.String && fitmodel.BaseSize(b0.Base) <= 4 && b0.Num != e.Num {
+				base = b0
+				break
+			}
+		}
+		bsB, bsE := fitmodel.BaseSize(base.Base), fitmodel.BaseSize(e.Base)
+		d1 := fitmodel.Def{Local: 1, Global: m, Fields: []fitmodel.FieldDef{{Num: base.Num, Size: byte(bsB), Base: base.Base}}}
+		d2 := fitmodel.Def{Local: 2, Big: true, Global: m, Fields: []fitmodel.FieldDef{{Num: base.Num, Size: byte(bsB), Base: base.Base}, {Num: e.Num, Size: byte(bsE), Base: e.Base}}}
+		parts := append(fitmodel.FileIdRecords(0, ft), d1.Bytes(), fitmodel.Data(1, fitmodel.PutUint(d1.Order(), bsB, 5)),
+			d2.Bytes(), fitmodel.Data(2, fitmodel.Concat(fitmodel.PutUint(d2.Order(), bsB, 5), fitmodel.PutUint(d2.Order(), bsE, 9))),
+			fitmodel.Data(1, fitmodel.PutUint(d1.Order(), bsB, 6)))
+		feed(fmt.Sprintf("delta-field:%v.%d", e.Mesg, e.Num), fitmodel.File(fitmodel.DefaultHeader, parts...), "")
+	}
 	// (9) every file_id.type byte: whatever type Decode accepts must be a type Encode can write
 	for t := 0; t < 256; t++ {
 		parts := append(fitmodel.FileIdRecords(0, byte(t)), recordDef(1, false).Bytes(), recordData(1, false, 1000000000, 60, 5))
